@@ -10,6 +10,7 @@ package logic
 
 import (
 	"fmt"
+	"github.com/q191201771/lal/pkg/hls"
 	"path/filepath"
 
 	"github.com/q191201771/lal/pkg/mpegts"
@@ -24,6 +25,11 @@ func (group *Group) startRecordMpegtsIfNeeded(nowUnix int64) {
 	// 构造文件名
 	filename := fmt.Sprintf("%s-%d.ts", group.streamName, nowUnix)
 	filenameWithPath := filepath.Join(group.config.RecordConfig.MpegtsOutPath, filename)
+	// 注意，流名称由对端指定（可能包含".."或者路径分隔符），录制文件必须位于配置的录制目录之内，否则不录制
+	if !hls.IsInsideRootOutPath(group.config.RecordConfig.MpegtsOutPath, filenameWithPath) {
+		Log.Errorf("[%s] record mpegts file is not inside the record out path, record disabled. filename=%s", group.UniqueKey, filenameWithPath)
+		return
+	}
 
 	group.recordMpegts = &mpegts.FileWriter{}
 	if err := group.recordMpegts.Create(filenameWithPath); err != nil {
